@@ -45,6 +45,7 @@ type Obligation struct {
 	Pos    string
 	Text   string // human-readable statement
 	Props  []string
+	OnlyProps bool // Props was set by a `clauseprops` directive: the obligation belongs to those properties only
 	fx     *FnExec
 	Expect string // "unsat" normally; "sat" for cover obligations
 }
